@@ -79,7 +79,7 @@ func init() {
 	intrinsics["context.WithCancel"] = func(m *Machine, g *G, fr *Frame, in ssa.Instruction, args []Value) {
 		m.callHarness(g, fr, in, "verifNewCancel", nil, func(res Value) Value {
 			t := res.(Tuple)
-			ctx := Iface{T: types.NewPointer(m.namedType("context", "cancelCtx")), V: newCell(&Opaque{Kind: "cancelCtx", X: t[0]})}
+			ctx := Iface{T: ptrTo(m.namedType("context", "cancelCtx")), V: newCell(&Opaque{Kind: "cancelCtx", X: t[0]})}
 			return Tuple{ctx, t[1]}
 		})
 	}
